@@ -18,7 +18,7 @@ CHECK = {'level': 'exploration',
                  'tree key/value derivation as documented in LIP-0040 and framework/state_batch.go (prefix || H(key) -> H(value)), deleted keys absent',
                  'hook events lie outside the command snapshot and are always kept',
                  'ExecuteTransaction requests carry a Consensus message in generated histories (the in-process callers omit it: finding C16-F5)'],
- 'quick': [{'pkg': 'c16', 'run': 'TestC16Histories|TestRegress', 'checks': 5000, 'timeout': 900},
+ 'quick': [{'pkg': 'c16', 'run': 'TestC16Histories|TestRegress', 'checks': 4000, 'timeout': 900},
            {'pkg': 'c16', 'run': 'TestRefSMTAgainstTrie', 'checks': 400, 'timeout': 300}],
- 'thorough': [{'pkg': 'c16', 'run': 'TestC16Histories|TestRegress', 'checks': 40000, 'shards': 15, 'timeout': 2400},
-              {'pkg': 'c16', 'run': 'TestRefSMTAgainstTrie', 'checks': 20000, 'shards': 1, 'timeout': 900}]}
+ 'thorough': [{'pkg': 'c16', 'run': 'TestC16Histories|TestRegress', 'checks': 25000, 'shards': 15, 'timeout': 2400},
+              {'pkg': 'c16', 'run': 'TestRefSMTAgainstTrie', 'checks': 5000, 'shards': 1, 'timeout': 2400}]}
